@@ -103,6 +103,7 @@ func (p c05) RunUnit(idx int, tier string, seed int64, focus map[string]string, 
 		}
 	}
 	env := ws.Build(true)
+	env.FreshPD = true // goroutines share the Decoder, not a PathDecoder (its Prefill flag is set per request)
 	// query list over all files of all paths
 	var qs []core.Query
 	for _, path := range ws.Order {
